@@ -6,7 +6,7 @@
    All operand values, targets and addresses are unbounded Z. *)
 From Coq Require Import ZArith List String Ascii Bool.
 From Verif Require Import Base.Res Spec.PDP11 Gen.GenOpcodes Model.Insns
-  Proofs.InsnsCheck Proofs.InsnsP Proofs.InsnsMain Proofs.InsnsSyn.
+  Proofs.InsnsCheck Proofs.InsnsP Proofs.InsnsMain Proofs.InsnsSyn Proofs.SpecPDP11P.
 Import ListNotations.
 Open Scope string_scope.
 Open Scope list_scope.
@@ -103,6 +103,14 @@ Theorem C01_distinct : forall m1 m2 ops1 ops2 addr ws,
   expect m1 ops1 addr = expect m2 ops2 addr /\ exists e, expect m1 ops1 addr = Some e.
 Proof. exact distinct. Qed.
 Print Assumptions C01_distinct.
+
+(* the Spec's own table is sane: rows are pairwise disjoint and aligned, so a word inside a row's
+   range is decoded as that row's operation whatever the order of the rows *)
+Theorem C01_spec_rows_disjoint : forall name f base w,
+  In (name, f, base) optable -> base <= w < base + fsize f ->
+  exists f', decode_head w = Some (name, fields_of f' w) /\ fsize f' = fsize f /\ In (name, f', base) optable.
+Proof. exact decode_head_row. Qed.
+Print Assumptions C01_spec_rows_disjoint.
 
 (* non-vacuity *)
 Example C01_ex_mov : compile_insn "mov" [OImm 5; OAbs 7] 512 = Ok [5599; 5; 7]
